@@ -32,7 +32,7 @@ package transaction
 //@   ensures {C06} rollback-target-checked: isRollbackTxn(transaction) && (proposalCreates > old(proposalCreates) || (old(arrOf(transaction.Status.Proposals)) == 0 && arrOf(transaction.Status.Proposals) != 0)) ==> txnIsChange[rollbackIndexOf(transaction)]
 //@   ensures {C06} refused-rollback-fails: transaction.Status.State == configapi.TransactionStatus_FAILED && old(transaction.Status.State) != configapi.TransactionStatus_FAILED ==> isRollbackTxn(transaction) && !txnIsChange[rollbackIndexOf(transaction)] && transaction.Status.Failure != nil && (transaction.Status.Failure.Type == configapi.Failure_NOT_FOUND || transaction.Status.Failure.Type == configapi.Failure_FORBIDDEN) && transaction.Status.Phases.Abort != nil && tInitState(transaction) == configapi.TransactionInitializePhase_FAILED && proposalCreates == old(proposalCreates)
 //@   ensures {C06} missing-rollback-target-refused: old(tInitState(transaction)) == configapi.TransactionInitializePhase_INITIALIZING && old(arrOf(transaction.Status.Proposals)) == 0 && isRollbackTxn(transaction) && err == nil && (!txnFound[transaction.Index - 1] || txnInitDone[transaction.Index - 1]) && !txnIsChange[rollbackIndexOf(transaction)] ==> transaction.Status.State == configapi.TransactionStatus_FAILED
-//@   ensures {C02} init-in-index-order: proposalCreates > old(proposalCreates) || (old(arrOf(transaction.Status.Proposals)) == 0 && arrOf(transaction.Status.Proposals) != 0) ==> old(tInitState(transaction)) == configapi.TransactionInitializePhase_INITIALIZING && (!txnFound[transaction.Index - 1] || txnInitDone[transaction.Index - 1])
+//@   ensures {C01,C02} init-in-index-order: proposalCreates > old(proposalCreates) || (old(arrOf(transaction.Status.Proposals)) == 0 && arrOf(transaction.Status.Proposals) != 0) ==> old(tInitState(transaction)) == configapi.TransactionInitializePhase_INITIALIZING && (!txnFound[transaction.Index - 1] || txnInitDone[transaction.Index - 1])
 //@   ensures {C01,C07} proposal-list-names-every-target: old(arrOf(transaction.Status.Proposals)) == 0 && txnStatusWrites > old(txnStatusWrites) && tInitState(transaction) == configapi.TransactionInitializePhase_INITIALIZING && isType(transaction.Details, "*configapi.Transaction_Change") ==> listsEveryTarget(transaction.Status.Proposals, asType(transaction.Details, "*configapi.Transaction_Change").Change.Values, transaction.Index)
 //@   ensures {C07} create-idempotent: proposalCreates > old(proposalCreates) && lastCreateExisted ==> err == nil && transaction.Status.State == old(transaction.Status.State)
 //@   ensures {C01,C02} initialized-needs-all: tInitState(transaction) == configapi.TransactionInitializePhase_INITIALIZED && old(tInitState(transaction)) == configapi.TransactionInitializePhase_INITIALIZING ==> allSeen(transaction, seenInitialized)
